@@ -230,11 +230,20 @@ func runSchedules(c *Check, seed uint64, i int, tier string, st *core.Stats) {
 	if c.ID == "C11" {
 		// a third of the fetches happen on an instance that has executed before (other facts)
 		r := core.NewRand(core.Mix(rs, 0x11))
-		if r.Chance(1, 3) {
+		switch r.Intn(6) {
+		case 0, 1:
 			g := &gen.G{R: r, Prof: profileFor("C10")}
 			base.Calls = []core.Call{{Mode: "execute", Facts: g.Facts(), MaxCycle: uint64(r.Range(1, 5))}}
 			if r.Chance(1, 2) {
 				base.Calls[0].Facts = base.Facts
+			}
+		case 2:
+			// the same data context is fetched twice, the facts changed in place in between
+			g := &gen.G{R: r, Prof: profileFor("C11")}
+			other := g.Facts()
+			other.Omit = nil
+			if len(base.Facts.Omit) == 0 {
+				base.Knobs.RefetchFrom = other
 			}
 		}
 	}
